@@ -1097,6 +1097,23 @@ func genC18(em *emitter, thorough bool, reps, bigN, nRand, ncpu int) {
 			em.emit(c, reps/2, []variant{{"base", b}, {"other", insertAt(b, n/2, faultEntry('m', 0))}, {"other", insertAt(b, n, faultEntry('v', 0))}})
 		}
 	}
+	// one or two workers and a fault at every position: a worker that dies on an error is missed by the rest of the list
+	for _, c := range []int{1, 2} {
+		for _, n := range []int{2, 3, 5} {
+			for _, kind := range kinds {
+				good := sized(n - 1)
+				var vs []variant
+				for pos := 0; pos < n; pos++ {
+					label := "perm"
+					if pos == 0 {
+						label = "base"
+					}
+					vs = append(vs, variant{label, insertAt(good, pos, faultEntry(kind, 0))})
+				}
+				em.emit(c, reps/5, vs)
+			}
+		}
+	}
 	// thousands of entries
 	{
 		b := sized(bigN)
